@@ -263,6 +263,16 @@ Definition mon_C03 (c : cfg) (tr : trace) : list failure :=
 Definition all_whos (tr : trace) : list who :=
   flat_map (fun x => match x with (r, _, _, _, _, _, _, _) => [Cw r; Cr r; Hw r; Hr r] end) (rpcs_of tr).
 
+(* the last probe shows no frame waiting in any carrier direction *)
+Definition carriers_drained (tr : trace) : bool :=
+  match rev (filter (fun e => match snd e with Probe _ _ _ _ _ => true | _ => false end) tr) with
+  | (_, Probe _ _ pend _ _) :: _ => forallb (fun p => Z.eqb (fst p) 0 && Z.eqb (snd p) 0) pend
+  | _ => true
+  end.
+
+Definition multi_tunnel (tr : trace) : bool :=
+  existsb (fun e => match snd e with Stim StOpen t _ _ => negb (N.eqb t 0) | _ => false end) tr.
+
 Definition mon_C04 (c : cfg) (tr : trace) : list failure :=
   match (if c_rawc c || c_raws c then None else first_tunnel_end tr), teardown_at tr with
   | Some te, Some td =>
@@ -288,7 +298,9 @@ Definition mon_C04 (c : cfg) (tr : trace) : list failure :=
              (if dirty && res_is_ok r then fl 404 a (zr t) 0 else [])
          | _ => [] end) pre ++
       (* the serving side returns *)
-      (if c_rev c && negb (c_raws c) then
+      (* (only once everything the carriers held has been handed over: with several tunnels a
+         scenario may end while the ended tunnel's last frames are still undelivered) *)
+      (if c_rev c && negb (c_raws c) && (negb (multi_tunnel tr) || carriers_drained pre) then
          if existsb (fun e => match snd e with ServeRet _ _ _ => true | _ => false end) pre then [] else fl 406 last 0 0
        else [])
   | _, _ => []
